@@ -396,6 +396,11 @@ struct Executor {
         if (st >= 2 && any_null)
             viol({"C11"}, "cb", std::string("null-return-treated-as-error:codec=") + cn(sc) + ":call=" + kind, "status " + std::to_string(st), &sc);
         if (tst != 0) return;
+        for (size_t i = sc.cbs_checked; i < sc.cbs.size(); i++) {
+            CbEvent &ev = sc.cbs[i];
+            if (ev.esi < sc.k && !tab[ev.esi])
+                viol({"C11"}, "cb", std::string("callback-invoked-but-symbol-not-stored:codec=") + cn(sc) + ":call=" + kind + (ev.ret ? ":ret=buffer" : ":ret=null"), "esi " + std::to_string(ev.esi), &sc);
+        }
         for (uint32_t i : newly) {
             if (sc.got[i] && tab[i] == sc.first_ptr[i]) continue;      // received, not decoded
             if (sc.avail[i]) continue;                                 // pointer changed only
